@@ -37,7 +37,7 @@ def run(ctx):
     if rc != 0:
         raise vlib.BuildError("go build ./cmd/test_gen failed:\n" + o + e)
     quick = ctx.tier == "quick"
-    cmd, mism, st = run_tg(ctx, bins, bdir, tg, ctx.seed, 300 if quick else 5000, vet=6 if quick else 40)
+    cmd, mism, st = run_tg(ctx, bins, bdir, tg, ctx.seed, 300 if quick else 5000, vet=14 if quick else 40)
     spec_bad = [m for m in mism if m.startswith("MISMATCH-SPEC")]
     model_bad = [m for m in mism if m.startswith("MISMATCH-MODEL")]
     ctx.cov.update({
